@@ -136,34 +136,55 @@ impl Interpreter {
                 state.stack.push(top_data);
             }
             OpCodes::OP_NIP => {
+                if state.stack.len() < 2 {
+                    return Err(InterpreterError::EmptyStack);
+                }
                 state.stack.remove(state.stack.len() - 2);
             }
             OpCodes::OP_OVER => {
+                if state.stack.len() < 2 {
+                    return Err(InterpreterError::EmptyStack);
+                }
                 let index = state.stack.len() - 2;
                 let second_last = state.stack.get(index).cloned().ok_or(InterpreterError::NumberOutOfRange)?;
                 state.stack.push_bytes(second_last);
             }
             OpCodes::OP_PICK => {
                 let index = state.stack.pop_number()?;
+                if index < 0 || index as usize >= state.stack.len() {
+                    return Err(InterpreterError::NumberOutOfRange);
+                }
                 let selected_item = state.stack.get((state.stack.len() - 1) - index as usize).cloned().ok_or(InterpreterError::NumberOutOfRange)?;
                 state.stack.push_bytes(selected_item);
             }
             OpCodes::OP_ROLL => {
                 let index = state.stack.pop_number()?;
+                if index < 0 || index as usize >= state.stack.len() {
+                    return Err(InterpreterError::NumberOutOfRange);
+                }
                 let selected_item = state.stack.remove((state.stack.len() - 1) - index as usize);
                 state.stack.push_bytes(selected_item);
             }
             OpCodes::OP_ROT => {
                 let len = state.stack.len();
+                if len < 3 {
+                    return Err(InterpreterError::EmptyStack);
+                }
                 let third = state.stack.remove(len - 3);
 
                 state.stack.push_bytes(third);
             }
             OpCodes::OP_SWAP => {
                 let len = state.stack.len();
+                if len < 2 {
+                    return Err(InterpreterError::EmptyStack);
+                }
                 state.stack.swap(len - 1, len - 2);
             }
             OpCodes::OP_TUCK => {
+                if state.stack.len() < 2 {
+                    return Err(InterpreterError::EmptyStack);
+                }
                 let selected_item = state.stack.last().cloned().ok_or(InterpreterError::NumberOutOfRange)?;
                 state.stack.insert(state.stack.len() - 2, selected_item);
             }
@@ -172,6 +193,9 @@ impl Interpreter {
                 state.stack.pop_bytes()?;
             }
             OpCodes::OP_2DUP => {
+                if state.stack.len() < 2 {
+                    return Err(InterpreterError::EmptyStack);
+                }
                 let first = state.stack.last().cloned().ok_or(InterpreterError::NumberOutOfRange)?;
                 let second = state.stack.get(state.stack.len() - 2).cloned().ok_or(InterpreterError::NumberOutOfRange)?;
 
@@ -179,6 +203,9 @@ impl Interpreter {
                 state.stack.push_bytes(first);
             }
             OpCodes::OP_3DUP => {
+                if state.stack.len() < 3 {
+                    return Err(InterpreterError::EmptyStack);
+                }
                 let first = state.stack.last().cloned().ok_or(InterpreterError::NumberOutOfRange)?;
                 let second = state.stack.get(state.stack.len() - 2).cloned().ok_or(InterpreterError::NumberOutOfRange)?;
                 let third = state.stack.get(state.stack.len() - 3).cloned().ok_or(InterpreterError::NumberOutOfRange)?;
@@ -189,12 +216,18 @@ impl Interpreter {
             }
             OpCodes::OP_2OVER => {
                 let len = state.stack.len();
+                if len < 4 {
+                    return Err(InterpreterError::EmptyStack);
+                }
                 let third = state.stack[len - 3].clone();
                 let fourth = state.stack[len - 4].clone();
                 state.stack.push_bytes(fourth);
                 state.stack.push_bytes(third);
             }
             OpCodes::OP_2ROT => {
+                if state.stack.len() < 6 {
+                    return Err(InterpreterError::EmptyStack);
+                }
                 let index = state.stack.len() - 6;
                 let sixth = state.stack.remove(index);
                 let fifth = state.stack.remove(index);
@@ -238,7 +271,7 @@ impl Interpreter {
             }
 
             OpCodes::OP_SIZE => {
-                let len = state.stack.last().unwrap().len();
+                let len = state.stack.last().ok_or(InterpreterError::EmptyStack)?.len();
                 state.stack.push_number(len as i64)?;
             }
             OpCodes::OP_INVERT => {
